@@ -142,8 +142,21 @@ def _inject_run(cfg, recipes, base, rr_out, limit_per_pos=80, only=None):
         post = alpha.snapshot(world)
         pre0, post0, res0 = base.snapshots[j]
         bad = None
-        if res.status != res0.status:
+        spec = (res.info or {}).get("spec") or {}
+        if r["do"] == "op" and (spec.get("t") in ("F.Displace", "F.Squeeze") or spec.get("form") in ("rot", "bs")):
+            # the truncated form of these operators depends on the cut-off the library chooses, which
+            # depends on the representation level a rejected call may legitimately have changed
+            # (known finding KF-C10-estimator-accuracy): the fault-free trace is no reference from here on
+            return viols, injections
+        if "skipped" in (res.status, res0.status) and res.status != res0.status:
+            # applicability of expand/contract style requests depends on the representation level
+            d = twins.snapshot_diff(post0, post)
+            if d is not None:
+                bad = d
+        elif res.status != res0.status:
             bad = f"status {res0.status}/{res0.exc} -> {res.status}/{res.exc}"
+        elif r["do"] in ("kraus", "povm") and [pre.sub[n]["dims"] for n in r["on"]] != [pre0.sub[n]["dims"] for n in r["on"]]:
+            return viols, injections  # the operator set is resolved at the current cut-off: different channel
         else:
             d = twins.snapshot_diff(post0, post)
             if d is not None:
